@@ -136,6 +136,18 @@ def run(ctx):
             tail = bytes(r.getrandbits(8) for _ in range(r.choice([0, 1, 3, 6, 12])))
             fcases.append(b"\x7e\xa0\x10" + ab(c, None, False) + ab(l, p, True) + tail)
             fcases.append(b"\x7e\xa0\x10" + ab(l, p, True) + ab(c, None, False) + tail)
+    # every pair of length classes, also server to server (both addresses in the 2- or 4-byte form): C13_locate_decode covers
+    # any two standard addresses, so on these frames the model's answer is determined by the theorems (decisive)
+    std_frames = set()
+    reps = [(1, None), (127, None), (1, 17), (127, 127), (0, 0), (128, 1), (1, 128), (300, 17), (16383, 16383), (200, 0)]
+    reps += [(r.randrange(16384), r.choice([None, r.randrange(128), r.randrange(128, 16384)])) for _ in range(ctx.scale(12, 60))]
+    for (l, p) in reps:
+        for (l2, p2) in reps:
+            x, y = ab(l, p, True), ab(l2, p2, True)
+            if x and y:
+                for tail in (b"", b"\x93", bytes(r.getrandbits(8) for _ in range(r.choice([2, 5, 12])))):
+                    fcases.append(b"\x7e\xa0\x10" + x + y + tail)
+                    std_frames.add(fcases[-1])
     # neighbours decoded one after the other: frames that agree in everything but the last address byte (a result remembered
     # for "the same header" must not be handed out for a different station)
     neighbours = []
@@ -148,7 +160,7 @@ def run(ctx):
         neighbours += list(zip(g1, g1[1:])) + list(zip(g2, g2[1:]))
     fcases += [bytes(r.getrandbits(8) for _ in range(n)) for n in range(0, 16) for _ in range(ctx.scale(40, 400))]
     fcases += [bytes([0x7e, 0xa0, 7] + [r.choice([0, 2, 4, 0xfe, 1, 3, 0xff]) for _ in range(n)]) for n in range(0, 10) for _ in range(ctx.scale(60, 600))]
-    ctx.corr([("find_addresses", f) for f in fcases], impl, "find_addresses")
+    ctx.corr([("find_addresses", f) for f in fcases], impl, "find_addresses", decisive=lambda op, a: bytes(a) in std_frames)
     ctx.corr([(op, [f, sv]) for op in ("destination_from_bytes", "source_from_bytes") for sv in (True, False) for f in fcases[::3] + fcases[1::3][:3000]],
              impl, "from_bytes")
     # ---- search: the answer for a frame does not depend on the frame decoded before it
